@@ -754,7 +754,10 @@ def gen_path(draw, root):
     style = draw(st.sampled_from(
         ["root"] * 6 + ["abs", "bare", "root-noslash", "root-enc",
                         "root-twice", "root-dotdot", "root-encdot",
-                        "root-ctrl"]))
+                        "root-ctrl", "root-collision"]))
+    if style == "root-collision":
+        # a different directory whose name merely starts like the root
+        return r.rstrip("/") + draw(st.sampled_from(["x/", "-evil/", "2/"])) + p
     if style == "root-ctrl":
         return r + draw(st.sampled_from(
             ["\n", "%0A", "\t", "%09", "%0d", "sub/\n"])) + "//" + p
@@ -863,6 +866,6 @@ def _kinds(tier):
         Kind("interlock", run_interlock, enumerate=enum_interlock,
              hash_cases=False, max_shards=1, setup=setup, teardown=teardown),
         Kind("paths", run, strategy=gen_case(tier),
-             examples={"quick": 4000, "thorough": 200000},
+             examples={"quick": 6000, "thorough": 200000},
              setup=setup, teardown=teardown),
     ]
